@@ -79,6 +79,7 @@ type G struct {
 	depth     int // nesting of runFunc (nested VMs of callbacks)
 	children  int
 	vmOwned   bool // created by a go statement (finishes when depth returns to 0)
+	forcePark bool // park at the next instruction regardless of the quantum
 
 	// pending channel operation (valid at YBeforeOp and in stInOp)
 	ncases      int
@@ -104,19 +105,24 @@ type Sim struct {
 	Step int
 
 	MaxSteps int
-	Policy   int // 0 uniform, 1 run-to-block, 2 alternate, 3 priority (PCT-like)
-	prio     [maxG]int
-	changeAt [4]int
+	// MaxQuantum bounds the instructions per release (default 1<<20); checks
+	// that run non-terminating programs set it low.
+	MaxQuantum int
+	Policy     int // 0 uniform, 1 run-to-block, 2 alternate, 3 priority (PCT-like)
+	prio       [maxG]int
+	changeAt   [4]int
 
 	closed  [256]uintptr
 	nclosed int
 	ctxs    [8]context.Context
 	nctx    int
 
-	// BeforeStep is called by the scheduler before every release (fault
-	// hooks: cancel, clock jumps). Idle is called when nothing is parked; it
-	// returns true if it made progress possible (fired an event).
-	BeforeStep func(s *Sim)
+	// BeforeStep is called by the scheduler at every quiescence before a
+	// release (fault hooks: cancel, clock jumps); if it returns true an event
+	// was fired and the scheduler waits for quiescence again before choosing.
+	// Idle is called when nothing is parked; it returns true if it made
+	// progress possible (fired an event).
+	BeforeStep func(s *Sim) bool
 	Idle       func(s *Sim) bool
 
 	trace     uint64 // FNV-1a over (goroutine id, yield kind, detail)
@@ -214,6 +220,18 @@ func (s *Sim) Spawn(id string, fn func()) *G {
 //go:norace
 func (g *G) finish() { g.state = stDone }
 
+// parkForever blocks a goroutine of a finished simulation for good.
+//
+//go:norace
+func (g *G) parkForever() {
+	g.mu.Lock()
+	g.state = stParked
+	g.released = false
+	for {
+		g.cond.Wait()
+	}
+}
+
 // park blocks the calling goroutine until the scheduler releases it.
 //
 //go:norace
@@ -291,6 +309,7 @@ func hookBegin(slot *scriggo.SimSlot) {
 		}
 		slot.P = g
 		g.depth++
+		g.forcePark = true
 		return
 	}
 	// A goroutine started by a go statement: park before doing anything.
@@ -298,6 +317,10 @@ func hookBegin(slot *scriggo.SimSlot) {
 	if g.depth == 1 && g.state == stNew {
 		g.park(YStart, "")
 	}
+	// runFunc starts a watcher goroutine for the context right after this
+	// hook: park at the first instruction so that the watcher has settled
+	// (quiescence) before any instruction is executed.
+	g.forcePark = true
 }
 
 //go:norace
@@ -320,14 +343,21 @@ func hookInstr(slot *scriggo.SimSlot) {
 	}
 	s := g.sim
 	if s != getActive() {
+		// The simulation this goroutine belongs to is over: it must never
+		// execute another instruction (it would run outside any control).
+		g.parkForever()
 		return
 	}
 	g.Instrs++
+	if g.Instrs > 1<<31 {
+		panic(fmt.Sprintf("sched: goroutine %s ran %d instructions: quantum=%d step=%d", g.ID, g.Instrs, g.quantum, s.Step))
+	}
 	if s.Cancelled {
 		g.AfterCancelInstrs++
 	}
 	g.quantum--
-	if g.quantum <= 0 {
+	if g.quantum <= 0 || g.forcePark {
+		g.forcePark = false
 		g.park(YInstr, "")
 	}
 }
@@ -462,6 +492,16 @@ func (s *Sim) isClosed(p uintptr) bool {
 	return false
 }
 
+//go:norace
+func (s *Sim) isDoneChan(p uintptr) bool {
+	for i := 0; i < s.nctx; i++ {
+		if reflect.ValueOf(s.ctxs[i].Done()).Pointer() == p {
+			return true
+		}
+	}
+	return false
+}
+
 // waiter reports whether some goroutine other than g is blocked in an
 // operation with a case of direction dir on channel p.
 //
@@ -584,6 +624,14 @@ func (g *G) ParkedAt() int {
 func (g *G) OpKind() string {
 	if g.state == stInOp || (g.state == stParked && g.yieldKind == YBeforeOp) {
 		if g.isSelect {
+			// The implicit {op, ctx.Done()} select of an operation executed
+			// with a context set is reported as the operation itself.
+			if g.ncases == 2 && g.cases[1].Dir == reflect.SelectRecv && g.sim.isDoneChan(g.cases[1].Ptr) {
+				if g.cases[0].Dir == reflect.SelectSend {
+					return "send(ctx)"
+				}
+				return "recv(ctx)"
+			}
 			return "select"
 		}
 		if g.cases[0].Dir == reflect.SelectSend {
@@ -602,9 +650,13 @@ func (s *Sim) logf(format string, args ...any) {
 
 // quantumFor draws how many instructions the released goroutine may run.
 func (s *Sim) quantumFor() int {
+	max := s.MaxQuantum
+	if max <= 0 {
+		max = 1 << 20
+	}
 	switch s.Policy {
 	case 1:
-		return 1 << 20
+		return max
 	case 2:
 		return 1
 	}
@@ -616,7 +668,7 @@ func (s *Sim) quantumFor() int {
 	case 2:
 		return 1 + s.S.N(64)
 	default:
-		return 1 << 20
+		return max
 	}
 }
 
@@ -680,8 +732,8 @@ func (s *Sim) Run(until func() bool) Outcome {
 			}
 			return Outcome{Kind: "deadlock", Steps: s.Step, Blocked: s.describeAll()}
 		}
-		if s.BeforeStep != nil {
-			s.BeforeStep(s)
+		if s.BeforeStep != nil && s.BeforeStep(s) {
+			continue
 		}
 		// Candidate order: the current goroutine first (draw 0 = do not
 		// switch), then by deterministic index.
